@@ -31,6 +31,10 @@ def cases(ctx):
         a = G.star_polygon(rng, n=rng.randint(3, 5), R=R)
         b = G.star_polygon(rng, n=rng.randint(3, 5), R=R, center=(float(a[0][0]), float(a[0][1])))
         yield {"k": "big", "a": a, "b": b}
+    # vertex denominators just below the 1e9 cap (stored unchanged): the integrals must still be the exact rationals
+    for i in range(ctx.n(8, 100)):
+        vs = G.star_polygon(rng, R=10, den=rng.choice([999999937, 99999989, 67108864, 10 ** 9]))
+        yield {"k": "xf", "vs": vs, "mv": (F(0), F(0)), "sc": (F(1), F(1))}
     for i in range(ctx.n(20, 300)):
         vs = G.star_polygon(rng, R=10, den=rng.choice([1, 3, 16]))
         yield {"k": "xf", "vs": vs, "mv": (F(rng.randint(-99, 99), rng.choice([1, 7, 1000])), F(rng.randint(-99, 99), 3)),
